@@ -20,6 +20,23 @@
   receiving until the channel is closed (the read loop forwards a signal while holding the mutex);
   byte framing of the CBOR library (the harness classifies bytes into items with the real decoder).
 
+  ASSUMPTION E (write side), on which every liveness statement about this model rests:
+  a write to the client-to-server stream completes without waiting for the peer.  In the model
+  `c2s` is an unbounded queue, the send steps (`rsSend / cSend / wSend / clSend`) are atomic and the
+  environment step `sRecv` is enabled whenever `c2s` is non-empty.  In client.go the write happens in
+  `sendCBOR` WHILE THE CLIENT MUTEX IS HELD (`c.mutex.Lock(); defer c.mutex.Unlock();
+  c.encoder.Encode(message)`), so on a transport without buffering that critical section lasts until
+  the peer reads, and nothing else of the client - in particular the read loop's `lDeliver` /
+  `lCheck` and every `cRegister` - can run meanwhile.  Steps of this model are whole critical
+  sections; a state "inside sendCBOR, lock held, waiting for the peer" does not exist in it, so the
+  model cannot express a peer that reads only while its own output is being consumed.  The
+  library's own server is such a peer (its read loop blocks on the `workDone` channel of capacity 3
+  while its report writer waits for the client to read), hence it does NOT meet E over unbuffered
+  pipes: harness sessions `backpressure-*` (marker "mutex-held-across-blocking-write") deadlock the
+  real client deterministically.  E holds for every peer over a buffering transport, and for every
+  peer once `sendCBOR` serialises writers with a mutex of its own (then a waiting write blocks only
+  other writes, the read loop keeps consuming the peer's output, and the peer reads again).
+
   Core Lean only (linked into the native driver).
 -/
 namespace Arca.AtpClient
